@@ -664,6 +664,7 @@ func (p *McClassCSessionAnsPayload) UnmarshalBinary(data []byte) error {
 	p.StatusAndMcGroupID.DRError = data[0]&0x04 != 0
 	p.StatusAndMcGroupID.FreqError = data[0]&0x08 != 0
 	p.StatusAndMcGroupID.McGroupUndefined = data[0]&0x10 != 0
+	p.TimeToStart = nil
 
 	if !p.StatusAndMcGroupID.hasError() {
 		if len(data) < p.Size() {
@@ -832,6 +833,7 @@ func (p *McClassBSessionAnsPayload) UnmarshalBinary(data []byte) error {
 	p.StatusAndMcGroupID.DRError = data[0]&0x04 != 0
 	p.StatusAndMcGroupID.FreqError = data[0]&0x08 != 0
 	p.StatusAndMcGroupID.McGroupUndefined = data[0]&0x10 != 0
+	p.TimeToStart = nil
 
 	if !p.StatusAndMcGroupID.hasError() {
 		if len(data) < p.Size() {
